@@ -1,0 +1,7 @@
+//go:build !verif
+
+package dkg
+
+// verifOrder is a verification hook; without the build tag "verif" it is the
+// identity (the packets keep the iteration order of the set's map).
+func verifOrder[T Packet](s []T) []T { return s }
